@@ -558,9 +558,14 @@ def rule_a10(ctx):
     les = []
     for b, blk in enumerate(body.blocks):
         for i, st in enumerate(blk["stmts"]):
-            if st["k"] == "assign" and st["rv"]["k"] == "binop" and st["rv"]["op"] == "Le" and st["rv"]["r"]["k"] in ("copy", "move"):
-                ks = [d[3]["rv"]["op"].get("val") for d in body.defs().get(st["rv"]["r"]["place"]["l"], [])
-                      if d[0] == "assign" and d[3]["rv"]["k"] == "cast" and d[3]["rv"]["op"]["k"] == "const"]
+            if st["k"] == "assign" and st["rv"]["k"] == "binop" and st["rv"]["op"] == "Le":
+                if st["rv"]["r"]["k"] == "const" and isinstance(st["rv"]["r"].get("val"), int):
+                    ks = [st["rv"]["r"]["val"]]
+                elif st["rv"]["r"]["k"] in ("copy", "move"):
+                    ks = [d[3]["rv"]["op"].get("val") for d in body.defs().get(st["rv"]["r"]["place"]["l"], [])
+                          if d[0] == "assign" and d[3]["rv"]["k"] in ("cast", "use") and d[3]["rv"]["op"]["k"] == "const"]
+                else:
+                    ks = []
                 if len(ks) != 1:
                     continue
                 res_local = st["place"]["l"]
